@@ -1077,105 +1077,10 @@ theorem hUpdateFrom_abs {st st' : HState α} (hs : HSep st) (r : Nat) (side : Bo
       rfl
 
 
-/-- the one command whose heap-level run is not reproduced pair for pair by the by-value machine: an instance
-    updated from ITSELF (`x.update(x)`, `x.update(x.inv)`): loop 2 then reads what loop 1 has just written -/
-def M2MCmd.NoSelfUpdate : M2MCmd α → Prop
-  | .updateFrom r _ r2 _ => r ≠ r2
-  | _ => True
-
-instance (c : M2MCmd α) : Decidable c.NoSelfUpdate := by
-  cases c <;> simp only [M2MCmd.NoSelfUpdate] <;> infer_instance
-
 theorem getElem?_lt {β : Type} {l : List β} {r : Nat} {x : β} (h : l[r]? = some x) : r < l.length := by
   rcases Nat.lt_or_ge r l.length with h1 | h1
   · exact h1
   · rw [List.getElem?_eq_none h1] at h; simp at h
-
-theorem push_getElem?_length (st : HState α) : st.push.regs[st.regs.length]? = some HInst.empty := by
-  simp [HState.push]
-
-theorem hm2mCmd_sim {st st' : HState α} {c : M2MCmd α} {ret : Ret α} (hs : HSep st) (hns : c.NoSelfUpdate)
-    (h : hm2mCmd st c = some (st', ret)) : m2mCmd st.abs c = some (st'.abs, ret) := by
-  have hlen : st.abs.length = st.regs.length := by simp [HState.abs]
-  cases c with
-  | new ps =>
-    simp only [hm2mCmd, Option.map_eq_some_iff, Prod.mk.injEq] at h
-    obtain ⟨st1, h1, e, e2⟩ := h
-    subst e; subst e2
-    obtain ⟨s, hsr, _, _, habs⟩ := stepAt_abs hs.push st.regs.length _ _
-      (fun s _ => updatePairs_foot ps _ s) (fun s _ => updatePairs_sim ps _ s) h1
-    rw [push_getElem?_length] at hsr
-    injection hsr with hsr
-    subst hsr
-    simp only [m2mCmd, Option.some.injEq, Prod.mk.injEq, and_true]
-    rw [habs, push_abs, ← hlen, set_append_length]
-    rfl
-  | newFrom r side =>
-    simp only [hm2mCmd] at h
-    split at h
-    · next hr =>
-      simp only [Option.map_eq_some_iff, Prod.mk.injEq] at h
-      obtain ⟨st1, h1, e, e2⟩ := h
-      subst e; subst e2
-      obtain ⟨s, o, hsr, hor, habs⟩ := hUpdateFrom_abs hs.push st.regs.length false r side (by omega) h1
-      rw [push_getElem?_length] at hsr
-      injection hsr with hsr
-      subst hsr
-      have hor' : st.regs[r]? = some o := by
-        simp only [HState.push] at hor
-        rwa [List.getElem?_append_left hr] at hor
-      simp only [m2mCmd, abs_getElem?, hor', Option.map_some, Option.some.injEq, Prod.mk.injEq, and_true]
-      rw [habs, push_abs, ← hlen, set_append_length]
-      rfl
-    · simp at h
-  | op r side op =>
-    simp only [hm2mCmd] at h
-    cases hr : st.regs[r]? with
-    | none => rw [hr] at h; simp at h
-    | some s =>
-      rw [hr] at h
-      simp only [Option.bind_some, Option.map_eq_some_iff, Prod.mk.injEq] at h
-      obtain ⟨st1, h1, e, e2⟩ := h
-      subst e
-      obtain ⟨gn, gr⟩ := hs.good r s hr
-      have gn' := (nodup_idsI_side s side).2 gn
-      have gr' : ∀ j ∈ idsI (s.side side), j < st.heap.length := fun j hj => gr j ((mem_idsI_side s side j).1 hj)
-      obtain ⟨s0, hsr, _, _, habs⟩ := stepAt_abs hs r _ (fun m => ((m.side side).step op).1.side side)
-        (fun s _ => sided_foot side (step_foot op st.heap (s.side side)))
-        (fun s _ => sided_sim side (G := fun m => (m.step op).1)
-          (fun hn hr => (step_sim op st.heap (s.side side) hn hr).1)) h1
-      rw [hr] at hsr
-      injection hsr with hsr
-      subst hsr
-      have hret := (step_sim op st.heap (s.side side) gn' gr').2
-      rw [abs_side] at hret
-      simp only [m2mCmd, abs_getElem?, hr, Option.map_some, Option.some.injEq, Prod.mk.injEq]
-      obtain ⟨q1, q2⟩ := stepSide_eq (s.abs st.heap) side op
-      rw [q1, q2, habs, ← e2, hret]
-      exact ⟨rfl, rfl⟩
-  | updateFrom r side r2 side2 =>
-    simp only [hm2mCmd, Option.map_eq_some_iff, Prod.mk.injEq] at h
-    obtain ⟨st1, h1, e, e2⟩ := h
-    subst e; subst e2
-    obtain ⟨s, o, hsr, hor, habs⟩ := hUpdateFrom_abs hs r side r2 side2 hns h1
-    simp only [m2mCmd, abs_getElem?, hsr, hor, Option.map_some]
-    rw [habs]
-
-theorem hm2mRun_sim {st st' : HState α} (cs : List (M2MCmd α)) (hs : HSep st) (hns : ∀ c ∈ cs, c.NoSelfUpdate)
-    (h : hm2mRun st cs = some st') : m2mRun st.abs cs = some st'.abs := by
-  induction cs generalizing st with
-  | nil => simp only [hm2mRun, Option.some.injEq] at h; subst h; rfl
-  | cons c cs ih =>
-    simp only [hm2mRun] at h
-    cases hc : hm2mCmd st c with
-    | none => rw [hc] at h; simp at h
-    | some p =>
-      obtain ⟨st1, ret⟩ := p
-      rw [hc] at h
-      have := hm2mCmd_sim hs (hns c (by simp)) hc
-      simp only [m2mRun, this]
-      exact ih (hm2mCmd_sep hs hc).1 (fun c' hc' => hns c' (by simp [hc'])) h
-
 
 /-! ## an instance updated from itself (`x.update(x)`, `x.update(x.inv)`) -/
 
@@ -1258,28 +1163,6 @@ theorem hUpdateFrom_self_same {st st' : HState α} (r : Nat) (side : Bool) (s : 
   simp only [HState.stepAt, hsr, Option.map_some, f2, set_same hsr, Option.some.injEq] at h
   subst h
   exact ⟨rfl, by simp only; rw [b2, b1], fun j => by simp only; rw [c2 j, c1 j]⟩
-
-/-- by value, what `x.update(x.inv)` makes of `x`: loop 2 merges the ALREADY merged forward dict into the inverse -/
-def selfMerge (A : M2M α) : M2M α :=
-  ⟨A.inv.foldl (fun d p => mergeKey p.1 p.2 d) A.data,
-   (A.inv.foldl (fun d p => mergeKey p.1 p.2 d) A.data).foldl (fun d p => mergeKey p.1 p.2 d) A.inv⟩
-
-theorem selfMerge_wf {A : M2M α} (w : A.WF) : (selfMerge A).WF := by
-  have g1 : GoodDict (A.inv.foldl (fun d p => mergeKey p.1 p.2 d) A.data) := foldMerge_good w.gd _ w.gi.ne_of_mem
-  refine ⟨g1, foldMerge_good w.gi _ g1.ne_of_mem, ?_⟩
-  intro a b
-  show b ∈ getSet a (List.foldl _ A.data A.inv) ↔ a ∈ getSet b (List.foldl _ A.inv (List.foldl _ A.data A.inv))
-  rw [foldMerge_mem, foldMerge_mem, g1.exists_iff, w.gi.exists_iff, foldMerge_mem, w.gi.exists_iff]
-  have t1 := w.transpose a b
-  have t2 := w.transpose b a
-  constructor
-  · rintro (h | h)
-    · exact Or.inl (t1.1 h)
-    · exact Or.inr (Or.inl (t2.2 h))
-  · rintro (h | h | h)
-    · exact Or.inl (t1.2 h)
-    · exact Or.inr (t2.1 h)
-    · exact Or.inl (t1.2 h)
 
 /-- `x.update(x.inv)` (and `x.inv.update(x)`): by value, register `r` becomes `selfMerge` of what it held -/
 theorem hUpdateFrom_self_opp {st st' : HState α} (hs : HSep st) (r : Nat) (side : Bool)
@@ -1384,23 +1267,85 @@ theorem hUpdateFrom_self_opp {st st' : HState α} (hs : HSep st) (r : Nat) (side
       rw [← abs_side st.heap s side]
       rfl
 
-/-- every command keeps the by-value invariant (same pairs transposed, no empty entry) of every heap-level instance -
-    self-updates included -/
-theorem hm2mCmd_wf {st st' : HState α} {c : M2MCmd α} {ret : Ret α} (hs : HSep st) (hw : AllWFm st.abs)
-    (h : hm2mCmd st c = some (st', ret)) : AllWFm st'.abs := by
-  by_cases hns : c.NoSelfUpdate
-  · exact m2mCmd_wf hw (hm2mCmd_sim hs hns h)
-  · cases c with
-    | new ps => exact absurd trivial hns
-    | newFrom r side => exact absurd trivial hns
-    | op r side op => exact absurd trivial hns
-    | updateFrom r side r2 side2 =>
-      have e : r = r2 := by
-        simp only [M2MCmd.NoSelfUpdate, ne_eq, Decidable.not_not] at hns; exact hns
+
+/-- a command that is not `x.update(x)` / `x.update(x.inv)`.  (Round 2 proved the refinement under this hypothesis
+    only; the by-value machine now follows the live reads of a self-update too - `M2M.updateFromReg` - and the
+    refinement `hm2mCmd_sim` is unconditional.) -/
+def M2MCmd.NoSelfUpdate : M2MCmd α → Prop
+  | .updateFrom r _ r2 _ => r ≠ r2
+  | _ => True
+
+instance (c : M2MCmd α) : Decidable c.NoSelfUpdate := by
+  cases c <;> simp only [M2MCmd.NoSelfUpdate] <;> infer_instance
+
+theorem push_getElem?_length (st : HState α) : st.push.regs[st.regs.length]? = some HInst.empty := by
+  simp [HState.push]
+
+theorem hm2mCmd_sim {st st' : HState α} {c : M2MCmd α} {ret : Ret α} (hs : HSep st) (hw : AllWFm st.abs)
+    (h : hm2mCmd st c = some (st', ret)) : m2mCmd st.abs c = some (st'.abs, ret) := by
+  have hlen : st.abs.length = st.regs.length := by simp [HState.abs]
+  cases c with
+  | new ps =>
+    simp only [hm2mCmd, Option.map_eq_some_iff, Prod.mk.injEq] at h
+    obtain ⟨st1, h1, e, e2⟩ := h
+    subst e; subst e2
+    obtain ⟨s, hsr, _, _, habs⟩ := stepAt_abs hs.push st.regs.length _ _
+      (fun s _ => updatePairs_foot ps _ s) (fun s _ => updatePairs_sim ps _ s) h1
+    rw [push_getElem?_length] at hsr
+    injection hsr with hsr
+    subst hsr
+    simp only [m2mCmd, Option.some.injEq, Prod.mk.injEq, and_true]
+    rw [habs, push_abs, ← hlen, set_append_length]
+    rfl
+  | newFrom r side =>
+    simp only [hm2mCmd] at h
+    split at h
+    · next hr =>
+      simp only [Option.map_eq_some_iff, Prod.mk.injEq] at h
+      obtain ⟨st1, h1, e, e2⟩ := h
+      subst e; subst e2
+      obtain ⟨s, o, hsr, hor, habs⟩ := hUpdateFrom_abs hs.push st.regs.length false r side (by omega) h1
+      rw [push_getElem?_length] at hsr
+      injection hsr with hsr
+      subst hsr
+      have hor' : st.regs[r]? = some o := by
+        simp only [HState.push] at hor
+        rwa [List.getElem?_append_left hr] at hor
+      simp only [m2mCmd, abs_getElem?, hor', Option.map_some, Option.some.injEq, Prod.mk.injEq, and_true]
+      rw [habs, push_abs, ← hlen, set_append_length]
+      rfl
+    · simp at h
+  | op r side op =>
+    simp only [hm2mCmd] at h
+    cases hr : st.regs[r]? with
+    | none => rw [hr] at h; simp at h
+    | some s =>
+      rw [hr] at h
+      simp only [Option.bind_some, Option.map_eq_some_iff, Prod.mk.injEq] at h
+      obtain ⟨st1, h1, e, e2⟩ := h
       subst e
-      simp only [hm2mCmd, Option.map_eq_some_iff, Prod.mk.injEq] at h
-      obtain ⟨st1, h1, e1, _⟩ := h
-      subst e1
+      obtain ⟨gn, gr⟩ := hs.good r s hr
+      have gn' := (nodup_idsI_side s side).2 gn
+      have gr' : ∀ j ∈ idsI (s.side side), j < st.heap.length := fun j hj => gr j ((mem_idsI_side s side j).1 hj)
+      obtain ⟨s0, hsr, _, _, habs⟩ := stepAt_abs hs r _ (fun m => ((m.side side).step op).1.side side)
+        (fun s _ => sided_foot side (step_foot op st.heap (s.side side)))
+        (fun s _ => sided_sim side (G := fun m => (m.step op).1)
+          (fun hn hr => (step_sim op st.heap (s.side side) hn hr).1)) h1
+      rw [hr] at hsr
+      injection hsr with hsr
+      subst hsr
+      have hret := (step_sim op st.heap (s.side side) gn' gr').2
+      rw [abs_side] at hret
+      simp only [m2mCmd, abs_getElem?, hr, Option.map_some, Option.some.injEq, Prod.mk.injEq]
+      obtain ⟨q1, q2⟩ := stepSide_eq (s.abs st.heap) side op
+      rw [q1, q2, habs, ← e2, hret]
+      exact ⟨rfl, rfl⟩
+  | updateFrom r side r2 side2 =>
+    simp only [hm2mCmd, Option.map_eq_some_iff, Prod.mk.injEq] at h
+    obtain ⟨st1, h1, e, e2⟩ := h
+    subst e; subst e2
+    by_cases hne : r = r2
+    · subst hne
       by_cases es : side2 = side
       · subst es
         cases hsr : st.regs[r]? with
@@ -1411,22 +1356,46 @@ theorem hm2mCmd_wf {st st' : HState α} {c : M2MCmd α} {ret : Ret α} (hs : HSe
             rw [hsr] at this
             exact List.mem_of_getElem? this)
           obtain ⟨a, _, c⟩ := hUpdateFrom_self_same r side2 s hsr hws h1
-          have : st1.abs = st.abs := by
+          have e : st1.abs = st.abs := by
             unfold HState.abs
             rw [a]
             apply List.map_congr_left
             intro x _
             exact abs_congr _ _ _ (fun j _ => c j)
-          rw [this]; exact hw
+          have hg : st.abs[r]? = some (s.abs st.heap) := by rw [abs_getElem?, hsr]; rfl
+          simp only [m2mCmd, abs_getElem?, hsr, Option.map_some, M2M.updateFromReg, decide_true, if_true]
+          rw [e, set_same hg]
       · have : side2 = !side := by cases side <;> cases side2 <;> simp_all
         subst this
         obtain ⟨s, hsr, habs⟩ := hUpdateFrom_self_opp hs r side h1
+        have hf : ((!side) = side) = False := by cases side <;> simp
+        simp only [m2mCmd, abs_getElem?, hsr, Option.map_some, M2M.updateFromReg, decide_true, if_true, hf, if_false]
         rw [habs]
-        have hws : (s.abs st.heap).WF := hw _ (by
-          have := abs_getElem? st r
-          rw [hsr] at this
-          exact List.mem_of_getElem? this)
-        exact hw.set r ((selfMerge_wf (hws.side side)).side side)
+    · obtain ⟨s, o, hsr, hor, habs⟩ := hUpdateFrom_abs hs r side r2 side2 hne h1
+      simp only [m2mCmd, abs_getElem?, hsr, hor, Option.map_some, M2M.updateFromReg, hne, decide_false]
+      rw [habs]
+      rfl
+
+theorem hm2mRun_sim {st st' : HState α} (cs : List (M2MCmd α)) (hs : HSep st) (hw : AllWFm st.abs)
+    (h : hm2mRun st cs = some st') : m2mRun st.abs cs = some st'.abs := by
+  induction cs generalizing st with
+  | nil => simp only [hm2mRun, Option.some.injEq] at h; subst h; rfl
+  | cons c cs ih =>
+    simp only [hm2mRun] at h
+    cases hc : hm2mCmd st c with
+    | none => rw [hc] at h; simp at h
+    | some p =>
+      obtain ⟨st1, ret⟩ := p
+      rw [hc] at h
+      have := hm2mCmd_sim hs hw hc
+      simp only [m2mRun, this]
+      exact ih (hm2mCmd_sep hs hc).1 (m2mCmd_wf hw this) h
+
+/-- every command keeps the by-value invariant (same pairs transposed, no empty entry) of every heap-level instance -
+    self-updates included -/
+theorem hm2mCmd_wf {st st' : HState α} {c : M2MCmd α} {ret : Ret α} (hs : HSep st) (hw : AllWFm st.abs)
+    (h : hm2mCmd st c = some (st', ret)) : AllWFm st'.abs :=
+  m2mCmd_wf hw (hm2mCmd_sim hs hw h)
 
 theorem hm2mRun_wf {st st' : HState α} (cs : List (M2MCmd α)) (hs : HSep st) (hw : AllWFm st.abs)
     (h : hm2mRun st cs = some st') : AllWFm st'.abs := by
